@@ -25,6 +25,26 @@ type SpecEnv struct {
 	bound map[string]bool
 	loopI string
 	depth int
+	head  *SpecEnv // environment at the head of the innermost loop iteration (atHead)
+	entry *SpecEnv // environment at the entry of the innermost loop (atEntry)
+}
+
+// inSnapshot evaluates x with heap and locals of a snapshot environment, keeping the
+// variables bound by enclosing quantifiers.
+func (e *SpecEnv) inSnapshot(snap *SpecEnv, x SExpr) Val {
+	c := *snap
+	c.names = map[string]Val{}
+	for k, v := range snap.names {
+		c.names[k] = v
+	}
+	for k, v := range e.names {
+		if e.bound[v.T] {
+			c.names[k] = v
+		}
+	}
+	c.bound = e.bound
+	c.depth = e.depth
+	return c.Eval(x)
 }
 
 func (e *SpecEnv) child() *SpecEnv {
@@ -287,6 +307,15 @@ func (e *SpecEnv) call(n *SCall) Val {
 		}
 		return vs
 	}
+	if strings.HasSuffix(n.Fun, "SinceEntry") {
+		// unchangedSinceEntry / mapUnchangedSinceEntry / ...: old() is the entry of the innermost loop
+		if e.entry == nil {
+			specFail("%s outside a loop", n.Fun)
+		}
+		c := *e
+		c.old = e.entry.st
+		return c.call(&SCall{Fun: strings.TrimSuffix(n.Fun, "SinceEntry"), Args: n.Args})
+	}
 	switch n.Fun {
 	case "len":
 		v := e.Eval(n.Args[0])
@@ -319,6 +348,53 @@ func (e *SpecEnv) call(n *SCall) Val {
 			cs = append(cs, fmt.Sprintf("(forall ((%s Int)) (! (=> (not (= %s %s)) (= (select %s %s) (select %s %s))) :pattern ((select %s %s))))", q, q, r.T, x.getHeap(e.st, k), q, x.getHeap(e.old, k), q, x.getHeap(e.st, k), q))
 		}
 		return Val{T: "(and " + strings.Join(cs, " ") + " true)", S: "Bool"}
+	case "mapUnchanged", "mapUnchangedExcept":
+		m := e.Eval(n.Args[0])
+		mt, ok := m.Ty.Underlying().(*types.Map)
+		if !ok {
+			specFail("%s of non-map", n.Fun)
+		}
+		dom, val, ks, _ := x.u.mapKeys(mt)
+		q := "k$q" + fmt.Sprint(x.nextQ())
+		guard := "true"
+		if n.Fun == "mapUnchangedExcept" {
+			k := e.Eval(n.Args[1])
+			guard = "(not (= " + q + " " + k.T + "))"
+		}
+		d1 := fmt.Sprintf("(select (select %s %s) %s)", x.getHeap(e.st, dom), m.T, q)
+		d0 := fmt.Sprintf("(select (select %s %s) %s)", x.getHeap(e.old, dom), m.T, q)
+		v1 := fmt.Sprintf("(select (select %s %s) %s)", x.getHeap(e.st, val), m.T, q)
+		v0 := fmt.Sprintf("(select (select %s %s) %s)", x.getHeap(e.old, val), m.T, q)
+		return Val{T: fmt.Sprintf("(forall ((%s %s)) (=> %s (and (= %s %s) (=> %s (= %s %s)))))", q, ks, guard, d1, d0, d1, v1, v0), S: "Bool"}
+	case "ghostNow":
+		if g, ok := e.st.ghost["now"]; ok {
+			return g
+		}
+		return Val{T: x.now0(), S: "Int"}
+	case "atHead":
+		if e.head == nil {
+			specFail("atHead() outside a loop body")
+		}
+		return e.inSnapshot(e.head, n.Args[0])
+	case "atEntry":
+		if e.entry == nil {
+			specFail("atEntry() outside a loop")
+		}
+		return e.inSnapshot(e.entry, n.Args[0])
+	case "visited":
+		k := e.Eval(n.Args[0])
+		g, ok := e.st.ghost["$visited"]
+		if !ok {
+			specFail("visited() outside a range-over-map loop")
+		}
+		return Val{T: "(select " + g.T + " " + k.T + ")", S: "Bool"}
+	case "indom0":
+		k := e.Eval(n.Args[0])
+		g, ok := e.st.ghost["$dom0"]
+		if !ok {
+			specFail("indom0() outside a range-over-map loop")
+		}
+		return Val{T: "(select " + g.T + " " + k.T + ")", S: "Bool"}
 	case "indom":
 		m, k := e.Eval(n.Args[0]), e.Eval(n.Args[1])
 		mt, ok := m.Ty.Underlying().(*types.Map)
